@@ -144,7 +144,18 @@ inline void apply(Run &R, const Op &o) {
             m.sp.push_back(m.sp[k]);
             m.sp[k].clear();
         } break;
-        case 5: {
+        case 5: if ((o.c & 0x80) && !m.sp[k].empty()) {
+            // drained handle by handle until it is empty (as thread_pool::resume(suspend_point&) does): the object stays usable,
+            // e.g. as the target of a later assignment
+            while (!m.sp[k].empty()) {
+                std::coroutine_handle<> h = R.pool[k]->pop();
+                int id = R.id_of(h);
+                auto it = std::find(m.sp[k].begin(), m.sp[k].end(), id);
+                HZ_CHECK(id >= 0 && it != m.sp[k].end(), "pop() returned a handle (%d) that suspend point %zu does not own", id, k);
+                m.sp[k].erase(it); m.loose.push_back(id);
+            }
+            HZ_CHECK(R.pool[k]->empty(), "suspend point not empty after every handle was popped");
+        } else {
             std::coroutine_handle<> h = R.pool[k]->pop();
             if (m.sp[k].empty()) {
                 HZ_CHECK(h.address() == std::noop_coroutine().address(), "pop() on an empty suspend point returned a handle");
